@@ -1,6 +1,6 @@
 (* C13 - volatile stream adapters transfer data exactly like their std::io counterparts.
    Statements only.  [vm_step md k st o] is one operation o of the vm-memory adapter of kind k
-   (Impl/Io.v; &[u8], &mut [u8], Vec<u8>, Cursor<T>, Cursor<&mut [u8]>, File, byte queue) on stream state
+   (Impl/Io.v; &[u8], &mut [u8], Vec<u8>, Cursor<T>, Cursor<&mut [u8]>, File, byte queue, message queue) on stream state
    st, with the buffer placed in an arena [arena b = 8 canaries ++ b ++ 8 canaries]; [std_step k st o]
    is the documented std::io operation (Impl/Std.v) on the same state with an ordinary buffer.
    Result codes: (0,n) Ok(n)  (1,0) Ok(())  (2,0) UnexpectedEof  (3,0) WriteZero  (9,0) position set.
@@ -43,7 +43,7 @@ Theorem C13_exact_ok_iff : forall md k content st o budget st' m rc,
   | KSliceR | KCurR | KSliceW | KCurW =>
       (nlen (op_buf o) <= room_of k st -> rc = (1, 0))
       /\ (room_of k st < nlen (op_buf o) -> rc = if is_read o then (2, 0) else (3, 0))
-  | KFile | KQueue => exists ost bs, std_step k st o = Val (ost, bs, rc)
+  | KFile | KQueue | KMsgQ => exists ost bs, std_step k st o = Val (ost, bs, rc)
   end.
 Proof. exact exact_ok_iff_lemma. Qed.
 
@@ -91,6 +91,30 @@ Proof.
   - split; [reflexivity|]. split.
     + repeat constructor; cbn; unfold buf_ok; cbn; rewrite ?W64_val; try reflexivity; lia.
     + cbn. unfold cur_ok. cbn. rewrite W64_val. split; reflexivity.
+  - vm_compute. repeat split.
+Qed.
+
+(* non-vacuity for the message queue: the exact read of 8 bytes is assembled from THREE messages (3 + 3 + 2),
+   the fourth stays queued; a 2-byte read of it discards the excess; the empty queue answers EAGAIN
+   ((5,0), passed on unchanged); an empty message ends an exact read with UnexpectedEof; writes enqueue
+   one message each (also the empty one) *)
+Example C13_msgq_nonvacuous :
+  let c := {| c_mode := Debug; c_kind := KMsgQ;
+              c_init := {| s_data := [1;2;3;256; 4;5;6;256; 7;8;256; 9;10;11;12;256]; s_pos := 0; s_out := [] |};
+              c_ops := [OReadExact [0;0;0;0;0;0;0;0]; ORead [0;0]; ORead [0]; OWrite [5;6]; OWrite []] |} in
+  let d := {| c_mode := Debug; c_kind := KMsgQ;
+              c_init := {| s_data := [1;2;3;256; 256; 4;5;6;256]; s_pos := 0; s_out := [] |};
+              c_ops := [OReadExact [0;0;0;0;0]; ORead [0;0;0;0;0]] |} in
+  wf13 c /\ ok_C13 c (run_C13 c) = true
+  /\ map a_rc (run_C13 c) = [(1,0); (0,2); (5,0); (0,2); (0,0)]
+  /\ map a_buf (run_C13 c) = [[1;2;3;4;5;6;7;8]; [9;10]; [0]; [5;6]; []]
+  /\ map a_data (run_C13 c) = [[9;10;11;12;256]; []; []; []; []]
+  /\ map a_out (run_C13 c) = [[]; []; []; [5;6;256]; [256]]
+  /\ map a_rc (run_C13 d) = [(2,0); (0,3)] /\ map a_buf (run_C13 d) = [[1;2;3;0;0]; [4;5;6;0;0]].
+Proof.
+  split.
+  - split; [reflexivity|]. split; [|exact I].
+    repeat constructor; cbn; unfold buf_ok; cbn; rewrite ?W64_val; try reflexivity; lia.
   - vm_compute. repeat split.
 Qed.
 
